@@ -11,7 +11,7 @@ Line protocol of the C14 model (sums are exact integers: `M := Int`).
   C14 merged <req> <parts>   finalize (mergeFruits (parts.map collectSeg))   (with segment truncation)
   C14 mergedtrim <req> <parts>   top-level composite only: finalize (fold compMergeFruits (parts.map collectSegComposite)) — per-segment eviction and merge-time trim above 2*size
   C14 keyasc <req> <parts>   top-level terms, _key ascending, min_doc_count ≤ 1, no terms below: `same` when the truncated
-                             merged segments show the buckets of evalAggPV, `diff …` otherwise, `n/a` when not applicable
+                             merged segments show the buckets and sum_other_doc_count of evalAggPV, `diff …` otherwise, `n/a` when not applicable
   C14 limit  <n> <req> <parts>   finalizeGuarded n on the merged tree: `ok <res>` | `err <count>`
   C14 defaults <size|_> <segment_size|_> <min_doc_count|_>   size, segment_size, min_doc_count, default bucket limit
   C14 extstats <sigma*4> <parts of integers>   extended_stats accumulator (Welford + Chan over Rat): count sum Σv² M2 sigma
@@ -191,7 +191,7 @@ def handle : List String → String
       if p.order == .keyAsc && decide (p.size ≤ p.segSize) && decide (p.minDocCount ≤ 1) && sub.cutFree then
         let a : Res Int (.terms p sub) := finalize (.terms p sub) (merged (.terms p sub) parts)
         let b : Res Int (.terms p sub) := evalAggPV Int (.terms p sub) parts.flatten
-        if showRes (.terms p sub) (a.1, 0, 0) == showRes (.terms p sub) (b.1, 0, 0) then "same"
+        if showRes (.terms p sub) (a.1, a.2.1, 0) == showRes (.terms p sub) (b.1, b.2.1, 0) then "same"
         else "diff " ++ showRes (.terms p sub) a ++ " " ++ showRes (.terms p sub) b
       else "n/a"
     | _, _ => "n/a"
